@@ -219,9 +219,12 @@ func replay(path string) {
 		}
 		var mu [64]byte
 		copy(mu[:], hexf("mu"))
-		var sig []byte
-		pan, _ := vt.Try(func() { sig = h.MLDSASignInternalWithMu(sk, mu, rnd) })
-		out.Emit(vt.Ev{"ev": "signmu", "set": p.name, "sk": str("sk"), "mu": str("mu"), "rnd": str("rnd"), "sig": vt.Hex(sig), "panic": pan})
+		var sig, res []byte
+		pan, hung := guarded(func() { res = h.MLDSASignInternalWithMu(sk, mu, rnd) })
+		if !hung {
+			sig = res
+		}
+		out.Emit(vt.Ev{"ev": "signmu", "set": p.name, "sk": str("sk"), "mu": str("mu"), "rnd": str("rnd"), "sig": vt.Hex(sig), "panic": pan, "hung": hung})
 	case "verify":
 		verifyWithPk(out, getSet(str("set")), hexf("pk"), hexf("mp"), hexf("sig"), str("kind"))
 	case "verifymu":
@@ -288,11 +291,15 @@ func replay(path string) {
 			if err != nil {
 				vt.Fatal("replay: ComputePrehash: %v", err)
 			}
-			var s2 []byte
-			pan, _ := vt.Try(func() { s2, err = ps.SignPrehash(dig) })
+			var s2, res []byte
+			var rerr error
+			pan, hung := guarded(func() { res, rerr = ps.SignPrehash(dig) })
+			if !hung {
+				s2, err = res, rerr
+			}
 			ne := pk.ev("signed")
 			ne["variant"], ne["id"] = str("variant"), str("id")
-			ne["kind"], ne["msg"], ne["sig"], ne["err"], ne["panic"] = "prehash", str("msg"), vt.Hex(s2), err != nil, pan
+			ne["kind"], ne["msg"], ne["sig"], ne["err"], ne["panic"], ne["hung"] = "prehash", str("msg"), vt.Hex(s2), err != nil, pan, hung
 			out.Emit(ne)
 			return
 		}
